@@ -278,6 +278,66 @@ def history_shard(m, items):
             m.add('nontrivial')
 
 
+FRAME_ROUTES = [
+    # a generator that finds itself through a list created with the walrus operator, then walks its
+    # caller frames to the real builtins (found by an independent sub-agent on the unchanged tree)
+    "[abs := [], abs.append((len.gi_frame.f_back.f_back.f_globals['builtins'].open('/nonexistent').read() for len in abs)), next(abs[0])]",
+    "[abs := [], abs.append((len.gi_frame.f_back.f_back.f_builtins['open']('/nonexistent') for len in abs)), next(abs[0])]",
+    "[abs := [], abs.append((len.gi_frame.f_back.f_locals for len in abs)), next(abs[0])]",
+    "[abs := [], abs.append((len.gi_frame.f_back.f_code.co_consts for len in abs)), next(abs[0])]",
+    "(i for i in (1,)).gi_frame.f_globals",
+    "(i for i in (1,)).gi_code.co_names",
+    "[k := {'n': (j.gi_frame.f_back.f_back.f_globals for j in ())}]",
+    "sorted([1], key=(lambda v: v).__call__)",
+    "max.__self__.eval('1')",
+    "a.format.__self__",
+    "[abs := [], abs.append((sum.gi_yieldfrom for sum in abs)), next(abs[0])]",
+]
+
+
+def dangerous(v, depth=0):
+    """Frames, code objects, modules, or a namespace dictionary (frame locals/globals) inside a value."""
+    import types
+    if isinstance(v, (types.FrameType, types.CodeType, types.ModuleType, types.TracebackType)):
+        return True
+    if depth > 3:
+        return False
+    if isinstance(v, dict):
+        if '__builtins__' in v or any(isinstance(x, types.BuiltinFunctionType) for x in v.values()):
+            return True
+        return any(dangerous(x, depth + 1) for x in v.values())
+    if isinstance(v, (list, tuple, set)):
+        return any(dangerous(x, depth + 1) for x in v)
+    return False
+
+
+def frame_routes(rc):
+    """Generator / frame / code introspection through non-dunder attributes."""
+    install()
+    from tatsu.util.safeeval import is_eval_safe, safe_builtins, safe_eval
+    from ..runner import Merge
+    m = rc.total
+    for expr in FRAME_ROUTES:
+        ctx = dict(safe_builtins())
+        ctx.update({'a': 't'})
+
+        def direct():
+            if is_eval_safe(expr, ctx):
+                return safe_eval(expr, ctx)
+            return '<rejected>'
+        res = armed_eval(direct)
+        rc.add('evaluations')
+        desc = dict(expression=expr, outcome=[res[0], repr(res[1])[:160]])
+        if STATE['calls']:
+            rc.violation(f'frame-introspection/impure-builtin-called/{STATE["calls"][0]}', **desc)
+        elif STATE['events']:
+            rc.violation(f'frame-introspection/forbidden-audit-event/{STATE["events"][0]}', **desc)
+        elif res[0] == 'value' and res[1] != '<rejected>' and dangerous(res[1]):
+            rc.violation('frame-introspection/interpreter-object-obtained', **desc)
+        if res != ('value', '<rejected>'):
+            rc.add('nontrivial')
+
+
 def attribute_graph(rc):
     """BFS over the non-dunder attribute graph from every context value, depth 2."""
     import types
@@ -318,13 +378,14 @@ def run(rc):
     rc.pmap(history_shard, hists)
     rc.coverage['histories'] = len(hists)
     install()
+    frame_routes(rc)
     attribute_graph(rc)
     c = rc.total.counts
     rc.rule = (f'every name in vars(builtins) ({len(names)}) x {len(ARGS)} argument tuples x 17 syntactic routes (direct call, f-string field, nested '
                'f-string, comprehension, lambda, conditional, walrus, starred, subscript, key= callbacks, dunder attribute chains, str.format / '
                'format_map field access, % formatting, bare name), through is_eval_safe/safe_eval and as `constant` and ^`alert` in a real parse, '
                'under an audit hook with impure builtins replaced by recording stubs; plus a BFS of the non-dunder attribute graph (depth 2) from every '
-               'context value; plus every history of length 2-3 over a pool of 6 constant grammars (names bound by one parse must not be readable by the next), each in a pristine forked child; non-trivial = expression the sandbox did not reject')
+               'context value; plus generator/frame/code introspection routes through non-dunder attributes; plus every history of length 2-3 over a pool of 6 constant grammars (names bound by one parse must not be readable by the next), each in a pristine forked child; non-trivial = expression the sandbox did not reject')
     rc.coverage['object_results'] = sorted(map(str, rc.total.sets.get('object_results', ())))[:40]
     rc.assumptions += ['"pure builtin" is judged by an explicit list of impure names (mc/checks/c17.py:IMPURE) and by audit events',
                        'routes are a finite menu of syntactic forms, not all Python expressions']
